@@ -2,6 +2,7 @@ package main
 
 import (
 	"bytes"
+	"sort"
 	"context"
 	"fmt"
 	"os"
@@ -19,13 +20,17 @@ type solverDef struct {
 
 var solvers = []solverDef{
 	{"z3-5.1.0", func(s int) []string { return []string{"z3-new", "-in", fmt.Sprintf("-T:%d", s)} }, false},
+	{"z3-5.1.0-intblast", func(s int) []string {
+		return []string{"z3-new", "-in", fmt.Sprintf("-T:%d", s), "smt.bv.solver=2"}
+	}, false},
 	{"z3-4.8.12", func(s int) []string { return []string{"z3", "-in", fmt.Sprintf("-T:%d", s)} }, false},
 	{"cvc5-1.0.3", func(s int) []string {
 		return []string{"cvc5", "--lang", "smt2", fmt.Sprintf("--tlimit=%d", s*1000)}
 	}, true},
 }
 
-var solverSem = make(chan struct{}, 16)
+var solverSem = make(chan struct{}, 8)  // first-stage solver runs
+var racerSem = make(chan struct{}, 8)  // delayed portfolio members
 
 type solveResult struct {
 	verdict string // unsat sat unknown timeout error
@@ -35,8 +40,16 @@ type solveResult struct {
 }
 
 func runSolver(ctx context.Context, sd solverDef, script string, sec int) solveResult {
-	solverSem <- struct{}{}
-	defer func() { <-solverSem }()
+	return runSolverIn(ctx, solverSem, sd, script, sec)
+}
+
+func runSolverIn(ctx context.Context, sem chan struct{}, sd solverDef, script string, sec int) solveResult {
+	select {
+	case sem <- struct{}{}:
+	case <-ctx.Done():
+		return solveResult{verdict: "unknown", solver: sd.name}
+	}
+	defer func() { <-sem }()
 	t0 := time.Now()
 	cctx, cancel := context.WithTimeout(ctx, time.Duration(sec+2)*time.Second)
 	defer cancel()
@@ -134,17 +147,8 @@ func (r *FuncResult) runHoudini(tier string) (rounds int, queries int) {
 		rounds++
 		changed := false
 		en := enableAsserts(r.Candidates)
-		type job struct {
-			h *houdiniObl
-		}
-		var wg sync.WaitGroup
-		var mu sync.Mutex
-		// scripts must be generated sequentially (term store is not thread safe)
-		type prepared struct {
-			h       *houdiniObl
-			asserts []*Term
-		}
-		var prep []prepared
+		var qs []*query
+		owner := map[*query]*houdiniObl{}
 		for _, h := range r.houdini {
 			if !h.c.Alive {
 				continue
@@ -157,80 +161,369 @@ func (r *FuncResult) runHoudini(tier string) (rounds int, queries int) {
 				changed = true
 				continue
 			}
-			as := append(append([]*Term{}, en...), h.o.PC, Not(h.o.Goal))
-			prep = append(prep, prepared{h, as})
+			for _, q := range buildQueries(h.o, en, false) {
+				qs = append(qs, q)
+				owner[q] = h
+			}
 		}
-		slots := make(chan struct{}, 16)
-		for i := range prep {
-			i := i
-			wg.Add(1)
-			queries++
-			slots <- struct{}{}
-			go func() {
-				defer wg.Done()
-				defer func() { <-slots }()
-				sec := 2
-				if !prep[i].h.c.Auto {
-					sec = 5
-				}
-				res := runSolver(context.Background(), solvers[0], Script(prep[i].asserts, ScriptOpts{}), sec)
-				if res.verdict != "unsat" {
-					mu.Lock()
-					if prep[i].h.c.Alive {
-						prep[i].h.c.Alive = false
-						changed = true
+		queries += len(qs)
+		runQueries(qs, tier, true)
+		for _, q := range qs {
+			if q.result.verdict != "unsat" {
+				h := owner[q]
+				if os.Getenv("GVC_DEBUG") != "" {
+					fmt.Fprintf(os.Stderr, "houdini: %s fails (%s) round %d\n", h.o.Name, q.result.verdict, rounds)
+					if os.Getenv("GVC_DEBUG") == "2" {
+						os.WriteFile("/tmp/houdini_"+sanitizeFile(h.o.Name)+".smt2", []byte(Script(q.as, ScriptOpts{Model: true})), 0o644)
 					}
-					mu.Unlock()
 				}
-			}()
+				if h.c.Alive {
+					h.c.Alive = false
+					changed = true
+				}
+			}
 		}
-		wg.Wait()
 		if !changed || rounds > 12 {
 			return
 		}
 	}
 }
 
-// solveAll discharges the obligations in parallel. Scripts are rendered inside the workers
-// (rendering only reads the term store) and are not retained.
-func solveAll(obls []*Obligation, cands []*Candidate, tier string, expectSat bool) {
-	en := enableAsserts(cands)
-	var wg sync.WaitGroup
-	slots := make(chan struct{}, 16)
-	for _, o := range obls {
-		if !expectSat && (o.Goal == True || o.PC == False) {
-			o.Verdict, o.Solver = "unsat", "simplifier"
+type query struct {
+	o       *Obligation
+	goal    *Term
+	as0, as []*Term
+	result  solveResult
+}
+
+// buildQueries (sequential: creates terms) decomposes the goal of an obligation and prepares, for
+// each piece, the ground-instance query and the full query.
+func buildQueries(o *Obligation, en []*Term, expectSat bool) []*query {
+	goals := []*Term{o.Goal}
+	if !expectSat {
+		goals = decomposeGoal(o.Goal, 0)
+	}
+	var weak *Term
+	if !expectSat {
+		weak = groundInstances(o.PC, goals)
+	}
+	var out []*query
+	for _, g := range goals {
+		q := &query{o: o, goal: g}
+		if !expectSat && weak != nil && weak != o.PC {
+			// quantified hypotheses and a goal over merged states: prove it case by case
+			if sub := retryByGuards(q, en); sub != nil {
+				out = append(out, sub...)
+				continue
+			}
+		}
+		ng := Not(g)
+		if weak != nil && weak != o.PC {
+			q.as0 = append(append([]*Term{}, en...), weak, ng)
+		}
+		q.as = append(append([]*Term{}, en...), o.PC, ng)
+		out = append(out, q)
+	}
+	return out
+}
+
+// splitCases: alternatives of a path condition along its first top-level disjunction (the merge of
+// control-flow paths). pc is equivalent to the disjunction of the results.
+func splitCases(pc *Term) []*Term {
+	if pc.op == "or" && len(pc.args) <= 8 {
+		return pc.args
+	}
+	if pc.op != "and" {
+		return nil
+	}
+	for i, a := range pc.args {
+		if a.op == "or" && len(a.args) >= 2 && len(a.args) <= 8 {
+			var out []*Term
+			for _, d := range a.args {
+				rest := append(append([]*Term{}, pc.args[:i]...), pc.args[i+1:]...)
+				out = append(out, And(append([]*Term{d}, rest...)...))
+			}
+			return out
+		}
+	}
+	return nil
+}
+
+// iteConds counts the Boolean conditions of if-then-else terms reachable from t.
+func iteConds(t *Term, cnt map[int]int, byID map[int]*Term, seen map[int]bool) {
+	if seen[t.id] {
+		return
+	}
+	seen[t.id] = true
+	if t.op == "ite" && !t.args[0].bound && t.args[0].op != "true" && t.args[0].op != "false" {
+		c := t.args[0]
+		if c.op == "not" {
+			c = c.args[0]
+		}
+		cnt[c.id]++
+		byID[c.id] = c
+	}
+	for _, a := range t.args {
+		iteConds(a, cnt, byID, seen)
+	}
+}
+
+// retryByGuards re-proves a goal by partial evaluation: the most frequent if-then-else conditions
+// of the goal are fixed to true/false in turn and substituted through the path condition and the
+// goal (the constructors then fold the merged states back to one path).
+func retryByGuards(q *query, en []*Term) []*query {
+	cnt := map[int]int{}
+	byID := map[int]*Term{}
+	iteConds(q.goal, cnt, byID, map[int]bool{})
+	if len(cnt) == 0 {
+		return nil
+	}
+	type kv struct {
+		id, n int
+	}
+	var ks []kv
+	for id, n := range cnt {
+		ks = append(ks, kv{id, n})
+	}
+	sort.Slice(ks, func(i, j int) bool {
+		if ks[i].n != ks[j].n {
+			return ks[i].n > ks[j].n
+		}
+		return ks[i].id < ks[j].id
+	})
+	if len(ks) > 3 {
+		ks = ks[:3]
+	}
+	var out []*query
+	for mask := 0; mask < 1<<len(ks); mask++ {
+		m := map[int]*Term{}
+		var lits []*Term
+		for i, k := range ks {
+			c := byID[k.id]
+			if mask&(1<<i) != 0 {
+				m[c.id] = True
+				lits = append(lits, c)
+			} else {
+				m[c.id] = False
+				lits = append(lits, Not(c))
+			}
+		}
+		pc := And(append([]*Term{Subst(q.o.PC, m)}, lits...)...)
+		if pc == False {
 			continue
 		}
-		o := o
-		as := append(append([]*Term{}, en...), o.PC, Not(o.Goal))
+		g := Subst(q.goal, m)
+		if g == True {
+			continue
+		}
+		for _, g2 := range decomposeGoal(g, 0) {
+			nq := &query{o: q.o, goal: g2}
+			ng := Not(g2)
+			weak := groundInstances(pc, []*Term{g2})
+			if weak != pc {
+				nq.as0 = append(append([]*Term{}, en...), weak, ng)
+			}
+			nq.as = append(append([]*Term{}, en...), pc, ng)
+			out = append(out, nq)
+		}
+	}
+	return out
+}
+
+// retryByCases re-proves a goal that timed out, one control-flow case at a time.
+func retryByCases(q *query, en []*Term) []*query {
+	cases := splitCases(q.o.PC)
+	if len(cases) < 2 {
+		return nil
+	}
+	var out []*query
+	ng := Not(q.goal)
+	for _, c := range cases {
+		nq := &query{o: q.o, goal: q.goal}
+		weak := groundInstances(c, []*Term{q.goal})
+		if weak != c {
+			nq.as0 = append(append([]*Term{}, en...), weak, ng)
+		}
+		nq.as = append(append([]*Term{}, en...), c, ng)
+		out = append(out, nq)
+	}
+	return out
+}
+
+// runQueries (parallel: only renders and solves).
+func runQueries(queries []*query, tier string, fast bool) {
+	var wg sync.WaitGroup
+	slots := make(chan struct{}, 24)
+	for _, q := range queries {
+		q := q
 		wg.Add(1)
 		slots <- struct{}{}
 		go func() {
 			defer wg.Done()
 			defer func() { <-slots }()
-			scriptZ := Script(as, ScriptOpts{Model: true})
-			o.ScriptBytes = len(scriptZ)
-			res := decideScripts(scriptZ, func() string { return Script(as, ScriptOpts{Cvc5: true, Model: true}) }, tier)
-			o.Verdict, o.Solver, o.Seconds = res.verdict, res.solver, res.seconds
-			if res.verdict == "sat" {
-				o.Model = firstLines(res.output, 400)
-			} else if res.verdict != "unsat" {
-				o.Reason = firstLines(res.output, 3)
-			}
-			if res.verdict != "unsat" && keepScripts {
-				o.Script = scriptZ
-			}
+			q.result = raceQuery(q, tier, fast)
 		}()
 	}
 	wg.Wait()
 }
 
-var keepScripts = false
+// raceQuery runs a staggered portfolio on one query: the ground-instance form on z3 first, then
+// (after 1 s) on cvc5 and on z3 with int-blasting, then (after 3 s) the full quantified query on all
+// solvers. `unsat` from any member is conclusive (the ground-instance form has weaker hypotheses);
+// `sat` is only accepted from the full query.
+func raceQuery(q *query, tier string, fast bool) solveResult {
+	limit := 60
+	if tier == "thorough" {
+		limit = 180
+	}
+	if fast {
+		limit = 8
+	}
+	ctx, cancel := context.WithCancel(context.Background())
+	defer cancel()
+	type member struct {
+		sd    solverDef
+		inst  bool
+		delay time.Duration
+	}
+	var ms []member
+	if q.as0 != nil {
+		ms = append(ms, member{solvers[0], true, 0})
+		ms = append(ms, member{solvers[3], false, 1500 * time.Millisecond}, member{solvers[0], false, 1500 * time.Millisecond})
+		if !fast {
+			ms = append(ms, member{solvers[3], true, 5 * time.Second}, member{solvers[1], true, 5 * time.Second}, member{solvers[2], false, 10 * time.Second})
+		}
+	} else {
+		ms = append(ms, member{solvers[0], false, 0}, member{solvers[3], false, 2 * time.Second}, member{solvers[1], false, 2 * time.Second}, member{solvers[2], false, 4 * time.Second})
+	}
+	var scripts sync.Map
+	render := func(inst, cvc bool) string {
+		key := fmt.Sprint(inst, cvc)
+		if v, ok := scripts.Load(key); ok {
+			return v.(string)
+		}
+		as := q.as
+		if inst {
+			as = q.as0
+		}
+		sc := Script(as, ScriptOpts{Cvc5: cvc, Model: !inst && !fast})
+		scripts.Store(key, sc)
+		return sc
+	}
+	ch := make(chan solveResult, len(ms))
+	t0 := time.Now()
+	for _, m := range ms {
+		m := m
+		go func() {
+			if m.delay > 0 {
+				select {
+				case <-time.After(m.delay):
+				case <-ctx.Done():
+					ch <- solveResult{verdict: "unknown"}
+					return
+				}
+			}
+			left := limit - int(time.Since(t0).Seconds())
+			if left < 1 {
+				ch <- solveResult{verdict: "timeout"}
+				return
+			}
+			sem := solverSem
+			if m.delay > 0 {
+				sem = racerSem
+			}
+			r := runSolverIn(ctx, sem, m.sd, render(m.inst, m.sd.cvc5), left)
+			if m.inst {
+				if r.verdict == "unsat" {
+					r.solver += " (ground instances)"
+				} else {
+					r.verdict = "unknown"
+				}
+			}
+			ch <- r
+		}()
+	}
+	best := solveResult{verdict: "timeout", solver: "portfolio"}
+	for range ms {
+		x := <-ch
+		if x.verdict == "unsat" || x.verdict == "sat" {
+			x.seconds = time.Since(t0).Seconds()
+			if os.Getenv("GVC_DEBUG") == "2" && x.seconds > 3 {
+				slowN++
+				base := fmt.Sprintf("/tmp/slow_%d_%s", slowN, sanitizeFile(q.o.Name))
+				os.WriteFile(base+"_full.smt2", []byte(render(false, false)), 0o644)
+				if q.as0 != nil {
+					os.WriteFile(base+"_inst.smt2", []byte(render(true, false)), 0o644)
+				}
+				fmt.Fprintf(os.Stderr, "slow query %s: %.1fs by %s\n", base, x.seconds, x.solver)
+			}
+			if keepScripts && (x.verdict == "sat" || x.seconds > 2) {
+				q.o.Script = render(false, false)
+			}
+			return x
+		}
+		if x.verdict == "error" && debugSolver {
+			fmt.Fprintf(os.Stderr, "solver error (%s): %s\n", x.solver, firstLines(x.output, 3))
+		}
+	}
+	best.seconds = time.Since(t0).Seconds()
+	if keepScripts {
+		q.o.Script = render(false, false)
+	}
+	return best
+}
 
-func decideScripts(scriptZ string, mkC func() string, tier string) solveResult {
+func solveAll(obls []*Obligation, cands []*Candidate, tier string, expectSat bool) {
+	en := enableAsserts(cands)
+	var queries []*query
+	byObl := map[*Obligation][]*query{}
+	for _, o := range obls {
+		if !expectSat && (o.Goal == True || o.PC == False) {
+			o.Verdict, o.Solver = "unsat", "simplifier"
+			continue
+		}
+		qs := buildQueries(o, en, expectSat)
+		queries = append(queries, qs...)
+		byObl[o] = qs
+	}
+	runQueries(queries, tier, false)
+	for o, qs := range byObl {
+		o.Verdict = "unsat"
+		for qi, q := range qs {
+			res := q.result
+			if res.verdict != "unsat" && os.Getenv("GVC_DEBUG") == "2" && !expectSat {
+				base := "/tmp/q_" + sanitizeFile(o.Name) + "_" + fmt.Sprint(qi)
+				os.WriteFile(base+"_full.smt2", []byte(Script(q.as, ScriptOpts{})), 0o644)
+				if q.as0 != nil {
+					os.WriteFile(base+"_inst.smt2", []byte(Script(q.as0, ScriptOpts{})), 0o644)
+				}
+				fmt.Fprintf(os.Stderr, "failed piece %d of %s: %s (%s)\n", qi, o.Name, q.goal.String()[:min(300, len(q.goal.String()))], res.verdict)
+			}
+			if res.seconds > o.Seconds {
+				o.Seconds = res.seconds
+			}
+			if o.Solver == "" || res.verdict != "unsat" {
+				o.Solver = res.solver
+			}
+			if res.verdict != "unsat" && o.Verdict == "unsat" {
+				o.Verdict = res.verdict
+				o.FailedGoal = q.goal
+				if res.verdict == "sat" {
+					o.Model = firstLines(res.output, 400)
+				} else {
+					o.Reason = firstLines(res.output, 3)
+				}
+			}
+		}
+	}
+}
+
+var keepScripts = false
+var slowN int
+
+func decideScripts(scriptZ string, mkC func() string, inst []*Term, tier string) solveResult {
 	quick := tier != "thorough"
-	s1, s2 := 4, 12
+	s1, s2 := 4, 15
 	if !quick {
 		s1, s2 = 10, 60
 	}
@@ -240,19 +533,43 @@ func decideScripts(scriptZ string, mkC func() string, tier string) solveResult {
 	}
 	ctx, cancel := context.WithCancel(context.Background())
 	defer cancel()
-	ch := make(chan solveResult, 3)
+	ch := make(chan solveResult, 8)
 	scriptC := mkC()
+	n := 0
 	for _, sd := range solvers {
 		sd := sd
 		sc := scriptZ
 		if sd.cvc5 {
 			sc = scriptC
 		}
+		n++
 		go func() { ch <- runSolver(ctx, sd, sc, s2) }()
+	}
+	if inst != nil {
+		// the ground-instance query: only `unsat` is conclusive
+		iz := Script(inst, ScriptOpts{})
+		ic := Script(inst, ScriptOpts{Cvc5: true})
+		for _, sd := range []solverDef{solvers[1], solvers[3]} {
+			sd := sd
+			sc := iz
+			if sd.cvc5 {
+				sc = ic
+			}
+			n++
+			go func() {
+				x := runSolver(ctx, sd, sc, s2)
+				if x.verdict == "unsat" {
+					x.solver += " (ground instances)"
+				} else {
+					x.verdict = "unknown"
+				}
+				ch <- x
+			}()
+		}
 	}
 	best := r
 	total := r.seconds
-	for i := 0; i < 3; i++ {
+	for i := 0; i < n; i++ {
 		x := <-ch
 		if x.verdict == "unsat" || x.verdict == "sat" {
 			x.seconds += total
@@ -264,4 +581,59 @@ func decideScripts(scriptZ string, mkC func() string, tier string) solveResult {
 	}
 	best.seconds += total
 	return best
+}
+
+var skMu sync.Mutex
+
+// skolemize replaces the universally quantified variables of a goal by fresh constants
+// (the goal is negated in the query, so this is the solver's own first step, done eagerly so
+// that E-matching sees ground terms at once). Also descends through implications/conjunction-free goals.
+func skolemize(g *Term) *Term {
+	skMu.Lock()
+	defer skMu.Unlock()
+	for depth := 0; depth < 4; depth++ {
+		switch {
+		case g.op == "forall" && !g.bound:
+			m := map[int]*Term{}
+			for _, v := range g.qvars {
+				m[v.id] = Fresh("sk$"+v.name, v.sort)
+			}
+			g = Subst(g.args[0], m)
+		case g.op == "=>" && g.args[1].op == "forall" && !g.args[1].bound:
+			q := g.args[1]
+			m := map[int]*Term{}
+			for _, v := range q.qvars {
+				m[v.id] = Fresh("sk$"+v.name, v.sort)
+			}
+			g = Implies(g.args[0], Subst(q.args[0], m))
+		default:
+			return g
+		}
+	}
+	return g
+}
+
+// decomposeGoal splits a goal into independently provable pieces: conjunctions are split,
+// implications are distributed over conjunctions, universal quantifiers are skolemized.
+func decomposeGoal(g *Term, depth int) []*Term {
+	if depth > 6 {
+		return []*Term{g}
+	}
+	switch {
+	case g.op == "and":
+		var out []*Term
+		for _, a := range g.args {
+			out = append(out, decomposeGoal(a, depth+1)...)
+		}
+		return out
+	case g.op == "forall" && !g.bound:
+		return decomposeGoal(skolemize(g), depth+1)
+	case g.op == "=>":
+		var out []*Term
+		for _, c := range decomposeGoal(g.args[1], depth+1) {
+			out = append(out, Implies(g.args[0], c))
+		}
+		return out
+	}
+	return []*Term{g}
 }
